@@ -79,6 +79,9 @@ impl StateMachine<'_> {
     fn enter_merge_conflict(&mut self, merge_parents: &MergeParents) -> bool {
         use State::*;
         if let Some(commit) = parse_merge_marker(&self.line, "++<<<<<<<") {
+            // Removed/added lines in front of the conflict are still buffered: paint them
+            // now, so that they stay in front of it.
+            self.painter.paint_buffered_minus_and_plus_lines();
             self.state = MergeConflict(merge_parents.clone(), Ours);
             self.painter.merge_conflict_commit_names[Ours] = Some(commit.to_string());
             true
